@@ -1360,3 +1360,8 @@ def rejected_defs():
         "a": T([N("<% 1 +/ 2 %>", "g1", publish=[("p", "<% ctx().zq %>")])], input={"x": "{{ ctx('zr') }}", "y": "<% ctx().zr %>"}),
         "noop": T()})))
     return out
+
+
+def is_cyclic_huge(s):
+    """Loops feeding split tasks: every transition costs ~100 ms in the engine (graph.in_cycle)."""
+    return "loop-split-forkjoin" in s.name or "loop-fork-out" in s.name
